@@ -1518,12 +1518,19 @@ class PyCdlib:
          Nothing.
         """
         current_extent = 16
-        for pvd in self.pvds:
+        # El Torito requires its Boot Record at extent 17, directly behind the
+        # Primary Volume Descriptor, so copies of the Primary Volume Descriptor
+        # come after the Boot Records.
+        for pvd in self.pvds[:1]:
             pvd.set_extent_location(current_extent)
             current_extent += 1
 
         for br in self.brs:
             br.set_extent_location(current_extent)
+            current_extent += 1
+
+        for pvd in self.pvds[1:]:
+            pvd.set_extent_location(current_extent)
             current_extent += 1
 
         for svd in self.svds:
@@ -2917,10 +2924,9 @@ class PyCdlib:
             self._outfp_write_with_check(outfp,
                                          self.isohybrid_mbr.record(self.pvd.space_size * self.logical_block_size))
 
-        outfp.seek(self.pvd.extent_location() * self.logical_block_size)
-
         # First write out the PVDs.
         for pvd in self.pvds:
+            outfp.seek(pvd.extent_location() * self.logical_block_size)
             rec = pvd.record()
             self._outfp_write_with_check(outfp, rec)
             progress.call(len(rec))
